@@ -321,6 +321,81 @@ def check_bounds_inputs(model, rep):
         raise AnalysisError(f'only {n} classes with evalf, dependencies and _intbounds_impl found')
 
 
+def check_wrapper_shapes(model, rep):
+    """R06.8: a function-level `_Wrapper(evaluable.X, operands..., shape=S)` ANNOUNCES the shape S; what evaluation DELIVERS is the shape
+    property of the node X built from the lowered operands (operands are lowered with the point axes *P in front unless wrapped in
+    _WithoutPoints).  Both expressions are interpreted over labelled shapes for generic operands: delivered must be (*P,) + announced.
+    This is local to the call site and also checks that the node is right relative to the leading point axes."""
+    from sa.shapes import ShapeExec, Arr, Scal, Obj, ShapeError, lab
+    from sa.algebra import Unsupported
+    ev = model.module('evaluable')
+    fm = model.module('function')
+    n = nskip = 0
+    for f in model.functions.values():
+        if f.module is not fm or isinstance(f.node, ast.Lambda):
+            continue
+        for c in calls_in(f.node, nested=False):
+            if src(c.func) != '_Wrapper' or not c.args:
+                continue
+            t = src(c.args[0])
+            kw = {k.arg: k.value for k in c.keywords}
+            if not (t.startswith('evaluable.') and t[10:11].isupper()) or 'shape' not in kw:
+                continue
+            cls = ev.classes.get(t[10:])
+            shp = cls.members.get('shape') if cls is not None else None
+            if cls is None or shp is None or shp.func is None:
+                continue
+            fields = [st.target.id for st in cls.node.body if isinstance(st, ast.AnnAssign) and isinstance(st.target, ast.Name)]
+            if isinstance(kw['shape'], ast.Name):   # the announced shape was given a name first: use its (nearest preceding) definition
+                defs = [a for a in ast.walk(f.node) if isinstance(a, ast.Assign) and len(a.targets) == 1 and src(a.targets[0]) == kw['shape'].id and a.lineno < c.lineno]
+                if not defs:
+                    nskip += 1
+                    rep.info(f'R06.8 {f.key}:{c.lineno}: the announced shape `{kw["shape"].id}` has no definition in this function; not decided')
+                    continue
+                kw['shape'] = max(defs, key=lambda a: a.lineno).value
+            announced_names = {x.id for x in ast.walk(kw['shape']) if isinstance(x, ast.Name)}
+            env, attrs, withpts, skip = {}, {}, False, None
+            for fld, a in zip(fields, c.args[1:]):
+                wp = isinstance(a, ast.Call) and src(a.func) == '_WithoutPoints'
+                inner = a.args[0] if wp else a
+                if isinstance(inner, ast.Call) and src(inner.func) in ('Array.cast', '_Constant') and len(inner.args) == 1 and isinstance(inner.args[0], (ast.Name, ast.Constant)):
+                    v = inner.args[0]
+                    val = v.id if isinstance(v, ast.Name) else str(v.value)
+                    attrs[fld] = Scal(val)
+                    if isinstance(v, ast.Name):
+                        env[v.id] = val
+                elif isinstance(inner, ast.Name):
+                    nd = 3 if not wp else (2 if inner.id in announced_names else 1)
+                    arr = Arr([f'{inner.id}{k}' for k in range(nd)])
+                    env[inner.id] = arr
+                    attrs[fld] = Arr((['*P'] if not wp else []) + arr.shape)
+                    withpts |= not wp
+                else:
+                    skip = src(a)[:40]
+                    break
+            if skip is not None or len(c.args) - 1 > len(fields):
+                nskip += 1
+                rep.info(f'R06.8 {f.key}:{c.lineno}: operand `{skip}` of evaluable.{cls.name} is built in place; announced versus delivered shape is not decided for this site')
+                continue
+            for nme in announced_names - set(env):
+                env[nme] = nme     # a length known by name (n, s, length)
+            try:
+                announced = [lab(x) for x in ShapeExec(env).ev(kw['shape'])]
+                delivered = [lab(x) for x in ShapeExec({'self': Obj(**attrs)}).call(shp.func.node)]
+            except (Unsupported, ShapeError) as e:
+                nskip += 1
+                rep.info(f'R06.8 {f.key}:{c.lineno}: shape expressions of evaluable.{cls.name} use a construct the interpreter does not know ({e}); not decided')
+                continue
+            n += 1
+            want = (['*P'] if withpts else []) + announced
+            ok = delivered == want
+            rep.ob('R06.8', f.key, f.where(c), ok, f'evaluable.{cls.name}: the announced shape `{src(kw["shape"])[:50]}` is what the node delivers behind the point axes' if ok else
+                   f'`{src(c)[:70]}` announces the shape ({", ".join(announced)}) but evaluable.{cls.name}.shape delivers ({", ".join(delivered)}) for operands lowered with the point axes *P in front: '
+                   'the function array reports another shape than its evaluation has', statement=f'announced-shape {cls.name}@{f.name}')
+    if n < 12:
+        raise AnalysisError(f'R06.8: only {n} wrapper sites decided ({nskip} skipped)')
+
+
 def run(model, rep, tier):
     from rules.c02 import check_compiled_subset_dependencies, check_fields_announced
     rep.explanation = (
@@ -335,6 +410,7 @@ def run(model, rep, tier):
     rep.rule('R06.3', 'isconstant/arguments overrides are conservative')
     rep.rule('R06.4', 'elementary transfer functions equal interval arithmetic')
     rep.rule('R06.6', 'rewrite rules fire on certain, not merely possible, equality of run-time lengths (= R01.7): the simplified expression keeps the announced shape')
+    rep.rule('R06.8', 'function-level wrappers announce the shape their evaluable node delivers behind the point axes (labelled-shape interpretation of both expressions)')
     rep.rule('R06.7', 'announced integer ranges are computed from the dependencies of the value only')
     rep.rule('R06.5', 'function.Array wrappers announce exactly the arguments their lowering depends on (= R13.5)')
     check_consumers(model, rep)
@@ -346,6 +422,7 @@ def run(model, rep, tier):
     from rules.c01 import check_certain_equality
     check_certain_equality(model, _Rename(rep, {'R01.7': 'R06.6'}))
     check_bounds_inputs(model, rep)
+    check_wrapper_shapes(model, rep)
     check_compiled_subset_dependencies(model, rep, rule='R06.2')
     check_fields_announced(model, rep, rule='R06.2')
     rep.require('R06.1', 14)
